@@ -105,6 +105,8 @@ type droppedCounter struct {
 	mu    sync.Mutex
 	total int64
 	lines []string
+	// text: when set, the reports are read from this text (a captured stream) instead of being received as messages
+	text func() string
 }
 
 var droppedRe = regexp.MustCompile(`Logger dropped (\d+) messages`)
@@ -124,7 +126,19 @@ func (d *droppedCounter) LogError(a ...interface{}) {
 		d.total += n
 	}
 }
-func (d *droppedCounter) Total() int64 { d.mu.Lock(); defer d.mu.Unlock(); return d.total }
+func (d *droppedCounter) Total() int64 {
+	d.mu.Lock()
+	defer d.mu.Unlock()
+	if d.text != nil {
+		var n int64
+		for _, m := range droppedRe.FindAllStringSubmatch(d.text(), -1) {
+			k, _ := strconv.ParseInt(m[1], 10, 64)
+			n += k
+		}
+		return n
+	}
+	return d.total
+}
 
 // stdio capture: os.Stdout / os.Stderr are swapped for pipes before the logger is constructed.
 type stdio struct {
@@ -170,10 +184,13 @@ type built struct {
 }
 
 type builder struct {
-	dir   string
-	std   *stdio
-	n     int
-	extra []func()
+	dir string
+	// closeFirst: loggers with goroutines of their own that use os.Stdout / os.Stderr: they are closed (after everything
+	// has settled) before the standard streams are put back
+	closeFirst []logs.Loggers
+	std        *stdio
+	n          int
+	extra      []func()
 }
 
 func (b *builder) fresh() string { b.n++; return fmt.Sprintf("l%d", b.n) }
@@ -208,6 +225,17 @@ func (b *builder) build(c Config) (logs.Loggers, []*leaf, error) {
 			l, err = logs.NewPipeLogger()
 		}
 		return l, []*leaf{{name: name, out: b.std.out.String, err: b.std.err.String, wantOut: true, wantErr: true}}, err
+	case "asyncstd":
+		// the asynchronous logger over the standard streams: what it drops can only be reported on those streams
+		if b.std == nil {
+			b.std = swapStdio()
+		}
+		l, err := logs.NewAsynchronousStdLogger("src", c.Ring, 200*time.Microsecond, "log-src")
+		if err == nil {
+			b.closeFirst = append(b.closeFirst, l)
+		}
+		dc := &droppedCounter{text: b.std.err.String}
+		return l, []*leaf{{name: name, out: b.std.out.String, err: b.std.err.String, wantOut: true, wantErr: true, async: true, dropped: dc, ring: c.Ring}}, err
 	case "file", "fileonly":
 		p := filepath.Join(b.dir, b.fresh()+".log")
 		var l logs.Loggers
@@ -541,7 +569,12 @@ func checkCase(t ev.T, test string, c Case) {
 			time.Sleep(2 * time.Millisecond)
 		}
 	}
-	_ = logger.Close
+	for _, l := range b.closeFirst {
+		_ = l.Close()
+	}
+	if len(b.closeFirst) > 0 {
+		time.Sleep(5 * time.Millisecond)
+	}
 	restore()
 	// a message is delivered to its own sink and to no other: the file sinks of the loggers of earlier cases (removed with
 	// their directory) must not come back to life
@@ -663,12 +696,12 @@ func head(s []string) []string {
 
 // ---- generators -------------------------------------------------------------------------------------------------------------------
 
-var leafKinds = []string{"string", "plainstring", "std", "pipe", "file", "fileonly", "json", "zap", "logrus", "hclog", "slog", "stdr", "noop", "quiet", "async", "jsonslow"}
+var leafKinds = []string{"string", "plainstring", "std", "pipe", "file", "fileonly", "json", "zap", "logrus", "hclog", "slog", "stdr", "noop", "quiet", "async", "jsonslow", "asyncstd"}
 
 func genLeaf(t *rapid.T, label string, allowStd *bool) Config {
 	for {
 		k := rapid.SampledFrom(leafKinds).Draw(t, label)
-		if k == "std" || k == "pipe" || k == "file" {
+		if k == "std" || k == "pipe" || k == "file" || k == "asyncstd" {
 			if !*allowStd {
 				continue
 			}
@@ -679,7 +712,7 @@ func genLeaf(t *rapid.T, label string, allowStd *bool) Config {
 		case "quiet":
 			inner := rapid.SampledFrom([]string{"string", "json", "zap", "slog", "plainstring"}).Draw(t, label+"-inner")
 			c.Members = []Config{{Kind: inner}}
-		case "async", "jsonslow":
+		case "async", "jsonslow", "asyncstd":
 			c.Ring = rapid.SampledFrom([]int{1, 2, 4, 16, 64, 1024}).Draw(t, label+"-ring")
 			c.SlowUs = rapid.SampledFrom([]int{0, 0, 20, 200}).Draw(t, label+"-slow")
 		}
@@ -817,7 +850,7 @@ func TestEveryConstructor(t *testing.T) {
 		switch k {
 		case "quiet":
 			c.Members = []Config{{Kind: "string"}}
-		case "async", "jsonslow":
+		case "async", "jsonslow", "asyncstd":
 			c.Ring = 8
 		}
 		for _, wrap := range []string{"", "multiple", "combined"} {
